@@ -41,13 +41,15 @@ byte_array::byte_array(size_t size, unsigned char value)
 
 unsigned char &byte_array::operator[](size_t pos)
 {
-    detach();
+    if (!p || p->ref > 1)
+        detach();
     return p->data[pos];
 }
 
 const unsigned char &byte_array::operator[](size_t pos) const
 {
-    detach();
+    if (!p)
+        detach();
     return p->data[pos];
 }
 
@@ -59,7 +61,8 @@ void byte_array::reserve(size_t size)
 
 void byte_array::resize(size_t size)
 {
-    reserve(size);
+    if (!p || p->ref > 1 || size > p->capacity)
+        detach(size);
     if (p->size < size)
         ::memset(p->data + p->size, 0, size - p->size);
     p->size = size;
@@ -109,9 +112,9 @@ int byte_array::cmp(const byte_array &other) const
     if (p == other.p) {
         return 0;
     } else if (!p) {
-        return other.p->size > 0 ? 1 : 0;
+        return other.p->size > 0 ? -1 : 0;
     } else if (!other.p) {
-        return p->size > 0 ? -1 : 0;
+        return p->size > 0 ? 1 : 0;
     } else {
         size_t size = p->size;
         if (size > other.p->size)
